@@ -1,10 +1,8 @@
 """Scripted stand-in for an SMT solver (C05 tie).  argv: script.json calls.log query.smt2
 
-script.json: {"<basename of query file>": {"reply": KIND, "delay": seconds}, "default": {...}}
-KIND: sat | sat_nomodel | sat_invalid | sat_badmodel | unsat | unsat_rc1 | unsat_cr | unknown |
-      hang | garbage | empty | crash | rc1_sat
-Every call is logged (basename, kind, start, end) so the harness can check what was asked
-and in which order the answers were produced.
+script.json: {"<dir>/<basename>" | "<basename of query file>": {"reply": KIND, "delay": seconds}, "default": {...}}
+KIND: see REPLY_KINDS.  Every call is logged (dir/basename, kind, start/end, time) so the
+harness can check what was asked and in which order the answers were produced.
 """
 import json
 import os
@@ -12,23 +10,12 @@ import re
 import sys
 import time
 
+REPLY_KINDS = ["sat", "rc1_sat", "sat_nomodel", "sat_invalid", "sat_badmodel", "unsat", "unsat_rc1", "unsat_cr",
+               "unknown", "hang", "garbage", "empty", "crash"]
 
-def main():
-    t0 = time.time()
-    script = json.load(open(sys.argv[1]))
-    log = sys.argv[2]
-    query = sys.argv[3]
-    base = os.path.basename(query)
-    ent = script.get(base) or script.get("default") or {"reply": "unsat"}
-    kind = ent.get("reply", "unsat")
-    delay = float(ent.get("delay", 0))
-    text = open(query).read()
-    with open(log, "a") as f:
-        f.write(f"{base} {kind} start {t0:.4f}\n")
-    if kind == "hang":
-        time.sleep(60)
-    if delay:
-        time.sleep(delay)
+
+def reply_text(kind, text=""):
+    """(stdout, stderr, returncode) of the fake solver for a query with the given text."""
     out, err, rc = "", "", 0
     var = re.search(r"\(declare-fun (halmos_[A-Za-z0-9_]+) \(\) \(_ BitVec (\d+)\)\)", text)
     if var:
@@ -55,7 +42,7 @@ def main():
         out = "unsat" + nl + '(error "line 1 column 1: model is not available")\n' + core
         if kind == "unsat_rc1":
             rc = 1
-    elif kind == "unknown":
+    elif kind in ("unknown", "hang"):
         out = "unknown\n(error \"model is not available\")\n"
     elif kind == "garbage":
         out = "Sat\nfoo bar\n"
@@ -65,12 +52,34 @@ def main():
         err, rc = "Segmentation fault (core dumped)\n", 139
     else:
         out, rc = f"bad script kind {kind}\n", 2
+    return out, err, rc
+
+
+def main():
+    t0 = time.time()
+    script = json.load(open(sys.argv[1]))
+    log = sys.argv[2]
+    query = sys.argv[3]
+    base = os.path.basename(query)
+    key = os.path.basename(os.path.dirname(query)) + "/" + base
+    ent = script.get(key) or script.get(base) or script.get("default") or {"reply": "unsat"}
+    kind = ent.get("reply", "unsat")
+    delay = float(ent.get("delay", 0))
+    text = open(query).read()
     with open(log, "a") as f:
-        f.write(f"{base} {kind} end {time.time():.4f}\n")
+        f.write(f"{key} {kind} start {t0:.4f}\n")
+    if kind == "hang":
+        time.sleep(60)
+    if delay:
+        time.sleep(delay)
+    out, err, rc = reply_text(kind, text)
+    with open(log, "a") as f:
+        f.write(f"{key} {kind} end {time.time():.4f}\n")
     sys.stdout.write(out)
     sys.stderr.write(err)
     sys.stdout.flush()
     sys.exit(rc)
 
 
-main()
+if __name__ == "__main__":
+    main()
